@@ -29,4 +29,53 @@ theorem writeFile_empty_unchanged (st : FSState) (vid : Nat) (d : Bytes) (perm :
   | none => rw [step_none _ _ _ hv]
   | some v => rw [writeFile_empty_refused st vid d perm v hv]
 
+/-! # `writeFile` with more than `maxFileSize` bytes fails AFTER creating / truncating the file
+
+Since the file size limit `Write` refuses data that would end beyond `maxFileSize` with EINVAL.  `WriteFile` opens
+the file with O_WRONLY|O_CREATE|O_TRUNC first, so when the data is too long the call fails although the file has
+already been created (or emptied): the hypothesis `hw` of `step_failed_unchanged` cannot be dropped. -/
+
+/-- whenever the open of `writeFile` changed the heap (created or truncated the file), oversized data make the call
+    fail with EINVAL with that change kept -/
+theorem writeFileV_oversize (st : FSState) (v : View) (vid : Nat) (p d : Bytes) (perm : Nat) (s1 : Store) (hd : Handle)
+    (ho : openFile st.store v vid p oWRONLY_CREATE_TRUNC perm = (s1, .ok hd)) (hne : s1 ≠ st.store)
+    (hsz : maxFileSize < d.length) :
+    writeFileV st v vid p d perm = ({ st with store := s1 }, .err .EINVAL) := by
+  obtain ⟨hn, hom, _, hpos, c, hnd, hs⟩ := openFile_ok _ _ _ _ _ _ _ _ ho
+  have hp : p ≠ [] := openFile_ok_ne _ _ _ _ _ _ _ _ ho
+  rcases hs with rfl | ⟨m, dd, nl, id, hg⟩
+  · exact absurd rfl hne
+  · have hne' : hd.name.isEmpty = false := by rw [hn]; exact isEmpty_false_of_ne_sc' hp
+    have hw : (hd.om &&& omWrite == 0) = false := by rw [hom]; decide
+    have happ : (hd.om &&& omAppend != 0) = false := by rw [hom]; decide
+    have hde : d.isEmpty = false := by cases d with
+      | nil => simp at hsz
+      | cons _ _ => rfl
+    have hmax : (0 : Int).toNat + d.length > maxFileSize := by simpa using hsz
+    unfold writeFileV
+    rw [ho]
+    simp only [fileStep, hne', hnd, hg, hw, happ, hde, hpos, hmax, Bool.false_eq_true, if_false, if_true]
+
+/-- kernel-checked instance on the state of `memfs.New()`: `WriteFile("/f", d, 0644)` with `len(d) > maxFileSize`
+    returns EINVAL and leaves the new empty file "/f" behind -/
+theorem writeFile_oversize_counterexample (d : Bytes) (hd : maxFileSize < d.length) :
+    (step initState 0 (.writeFile [47, 102] d 0o644)).2 = .err .EINVAL ∧
+    (step initState 0 (.writeFile [47, 102] d 0o644)).1 ≠ initState := by
+  have hv : initState.view 0 = some { root := 0, cwd := [SL], uid := 0, gid := 0, admin := true, umask := 0o022 } := by
+    decide +kernel
+  have hopen : (match openFile initState.store { root := 0, cwd := [SL], uid := 0, gid := 0, admin := true, umask := 0o022 }
+        0 [47, 102] oWRONLY_CREATE_TRUNC 0o644 with
+      | (s1, .ok _) => decide (s1.next ≠ initState.store.next)
+      | _ => false) = true := by decide +kernel
+  rw [step_some _ _ _ _ hv]
+  simp only [stepV]
+  rcases ho : openFile initState.store { root := 0, cwd := [SL], uid := 0, gid := 0, admin := true, umask := 0o022 }
+      0 [47, 102] oWRONLY_CREATE_TRUNC 0o644 with ⟨s1, (e1 | h1)⟩
+  · rw [ho] at hopen; cases hopen
+  · rw [ho] at hopen
+    have hnext : s1.next ≠ initState.store.next := by simpa using hopen
+    have hne : s1 ≠ initState.store := fun e => hnext (by rw [e])
+    rw [writeFileV_oversize initState _ 0 _ d _ s1 h1 ho hne hd]
+    exact ⟨rfl, fun e => hne (congrArg FSState.store e)⟩
+
 end Avfs.FS
